@@ -46,6 +46,9 @@ type ProcessorNode struct {
 	swapMu  sync.Mutex
 	pending *pendingSwap
 	wakeCh  chan struct{}
+	// stopped is set (under swapMu) when Run returns: nobody is left to apply a
+	// staged swap, so Reconfigure must fail instead of waiting forever.
+	stopped bool
 }
 
 // pendingSwap is a staged live-reconfigure request. done carries the outcome back
@@ -77,6 +80,10 @@ func (n *ProcessorNode) Run(ctx context.Context) error {
 		return err
 	}
 	defer cleanup()
+	// When this loop is gone nobody applies staged swaps anymore: answer a
+	// pending Reconfigure and refuse later ones (otherwise a caller without a
+	// deadline waits forever, e.g. when the node fails to open during start-up).
+	defer n.refuseSwaps()
 	// Read the inbound channel directly and select over it together with the
 	// wake signal (below), rather than using Trigger's blocking Receive, so a
 	// live reconfigure applies promptly even when no records are flowing.
@@ -258,6 +265,10 @@ func (n *ProcessorNode) Reconfigure(ctx context.Context, newProcessor Processor)
 	wake := n.wake()
 
 	n.swapMu.Lock()
+	if n.stopped {
+		n.swapMu.Unlock()
+		return cerrors.New("processor node is not running, cannot reconfigure it in place")
+	}
 	if n.pending != nil {
 		n.swapMu.Unlock()
 		return cerrors.New("a processor reconfigure is already in progress")
@@ -287,6 +298,20 @@ func (n *ProcessorNode) Reconfigure(ctx context.Context, newProcessor Processor)
 		}
 		n.swapMu.Unlock()
 		return ctx.Err()
+	}
+}
+
+// refuseSwaps is called when Run returns. It fails a staged Reconfigure request
+// that was not applied and makes later requests fail right away.
+func (n *ProcessorNode) refuseSwaps() {
+	n.swapMu.Lock()
+	p := n.pending
+	n.pending = nil
+	n.stopped = true
+	n.swapMu.Unlock()
+	if p != nil {
+		// done is buffered (cap 1) and nobody else writes to it once pending is cleared
+		p.done <- cerrors.New("processor node stopped before the live reconfigure could be applied")
 	}
 }
 
